@@ -1005,3 +1005,75 @@ pub fn suite_ticker(t: &mut Trace) -> String {
     stretto::verif::install(None);
     format!(",\"model\":false,\"ticker_measurements\":[{}]", rows.join(","))
 }
+
+/// The all-default cache (`Cache::new` / `AsyncCache::new`: DefaultKeyBuilder, DefaultCoster,
+/// DefaultUpdateValidator, DefaultCacheCallback, RandomState), which the other suites never build:
+/// constructor arguments arrive, the default validator accepts, the default coster adds nothing,
+/// the default key builder finds a key again (also through its borrowed form).  Free-running, not
+/// compared with the model; every expectation below is a direct reading of the property texts.
+pub fn suite_defaults(t: &mut Trace) -> String {
+    use futures::executor::block_on;
+    stretto::verif::install(None);
+    let mut id = 0u64;
+    let mut fails: Vec<(&str, String)> = Vec::new();
+    macro_rules! check { ($prop:expr, $cond:expr, $($msg:tt)*) => { if !($cond) { fails.push(($prop, format!($($msg)*))); } } }
+    // ---- sync
+    {
+        t.case(id, "defaults");
+        let c: Cache<u64, u64> = Cache::new(100, 5000).expect("Cache::new");
+        check!("C20", c.max_cost() == 5000, "Cache::new(100, 5000).max_cost() is {}", c.max_cost());
+        check!("C09", c.insert(1, 11, 5), "insert of a new key returned false on the default cache");
+        let _ = c.wait();
+        check!("C02", c.get(&1).map(|v| { let x = *v.value(); v.release(); x }) == Some(11), "get(1) after insert(1, 11) and wait() is not 11");
+        check!("C09", c.insert(1, 12, 0), "re-insert of a resident key returned false with the default validator");
+        check!("C09", c.get(&1).map(|v| { let x = *v.value(); v.release(); x }) == Some(12), "the default validator did not let insert(1, 12) replace 11 at once");
+        let _ = c.wait();
+        let s = verif::snapshot(&c);
+        check!("C16", s.policy.key_costs.len() == 1 && s.policy.key_costs[0].1 == s.item_size as i64,
+               "cost 0 with the default coster must charge the overhead only ({}), charges are {:?}", s.item_size, s.policy.key_costs);
+        check!("C09", !c.insert_if_present(2, 21, 1) && c.len() == 1, "insert_if_present on an absent key returned true or added an entry (len {})", c.len());
+        c.remove(&1);
+        let _ = c.wait();
+        check!("C02", c.get(&1).is_none() && c.len() == 0, "get(1) after remove(1) and wait() still finds something");
+        let sc: Cache<String, u64> = Cache::new(100, 5000).expect("Cache::new");
+        check!("C18", sc.insert("alpha".to_string(), 7, 1), "insert(String) returned false");
+        let _ = sc.wait();
+        check!("C18", sc.get(&"alpha".to_string()).map(|v| { let x = *v.value(); v.release(); x }) == Some(7), "DefaultKeyBuilder does not find a String key again");
+        check!("C18", sc.get("alpha").map(|v| { let x = *v.value(); v.release(); x }) == Some(7), "DefaultKeyBuilder does not find a String key through its borrowed &str form");
+        check!("C18", sc.get("alphb").is_none(), "DefaultKeyBuilder confuses two different keys");
+        check!("C11", c.clear().is_ok() && sc.clear().is_ok(), "clear() failed on the default cache");
+        check!("C12", c.close().is_ok() && sc.close().is_ok() && c.close().is_ok(), "close() (twice) failed on the default cache");
+        check!("C12", !c.insert(3, 3, 1) && c.get(&3).is_none(), "a closed default cache accepted an insert");
+        t.step("defaults sync");
+        t.mark_nontrivial();
+        id += 1;
+    }
+    // ---- async
+    {
+        t.case(id, "defaults");
+        let c: AsyncCache<u64, u64> = AsyncCache::new(100, 5000, spawner).expect("AsyncCache::new");
+        check!("C20", c.max_cost() == 5000, "AsyncCache::new(100, 5000).max_cost() is {}", c.max_cost());
+        check!("C09", block_on(c.insert(1, 11, 5)), "async: insert of a new key returned false on the default cache");
+        let _ = block_on(c.wait());
+        check!("C02", block_on(c.get(&1)).map(|v| { let x = *v.value(); v.release(); x }) == Some(11), "async: get(1) after insert(1, 11) and wait() is not 11");
+        check!("C09", block_on(c.insert(1, 12, 0)), "async: re-insert of a resident key returned false with the default validator");
+        check!("C09", block_on(c.get(&1)).map(|v| { let x = *v.value(); v.release(); x }) == Some(12), "async: the default validator did not let insert(1, 12) replace 11 at once");
+        let _ = block_on(c.wait());
+        let s = verif::snapshot_async(&c);
+        check!("C16", s.policy.key_costs.len() == 1 && s.policy.key_costs[0].1 == s.item_size as i64,
+               "async: cost 0 with the default coster must charge the overhead only ({}), charges are {:?}", s.item_size, s.policy.key_costs);
+        check!("C09", !block_on(c.insert_if_present(2, 21, 1)) && c.len() == 1, "async: insert_if_present on an absent key returned true or added an entry");
+        block_on(c.remove(&1));
+        let _ = block_on(c.wait());
+        check!("C02", block_on(c.get(&1)).is_none() && c.len() == 0, "async: get(1) after remove(1) and wait() still finds something");
+        check!("C11", block_on(c.clear()).is_ok(), "async: clear() failed on the default cache");
+        check!("C12", block_on(c.close()).is_ok() && block_on(c.close()).is_ok(), "async: close() (twice) failed on the default cache");
+        check!("C12", !block_on(c.insert(3, 3, 1)), "async: a closed default cache accepted an insert");
+        t.step("defaults async");
+        t.mark_nontrivial();
+    }
+    for (prop, msg) in &fails {
+        println!("MONITOR property={} case=0 msg={}", prop, msg.replace(' ', "_"));
+    }
+    format!(",\"model\":false,\"default_cache_expectations_failed\":{}", fails.len())
+}
